@@ -181,13 +181,168 @@ theorem enterCore_rv {s s' : St} {caller orig tokenTo amt : Nat} {extra : List (
   obtain ⟨d1, d2, d3, d4, d5, d6, d7, d8⟩ := e5
   obtain ⟨f1, f2, f3, f4, f5, f6, f7, f8⟩ := e6
   refine ⟨?_, ?_, ?_, ?_, ?_, ?_, ?_, ?_⟩
-  · rw [hr, a1, a2, b8, a8]
-  · rw [hs, a2]
-  · rw [f3, d3, c3, b3, b4, a3, a4]
-  · rw [f4, d4, c4, b4, a4]
-  · rw [f5, d5, c5, b5, a5]
-  · rw [f6, d6, c6, b6, a6]
-  · rw [f7, d7, c7, b7, a7]
-  · rw [f8, d8, c8, b8, a8]
+  · simp only [hr, a1, a2, b8, a8]
+  · simp only [hs, a2]
+  · simp only [f3, d3, c3, b3, b4, a3, a4]
+  · simp only [f4, d4, c4, b4, a4]
+  · simp only [f5, d5, c5, b5, a5]
+  · simp only [f6, d6, c6, b6, a6]
+  · simp only [f7, d7, c7, b7, a7]
+  · simp only [f8, d8, c8, b8, a8]
+
+/-- claim / compound: a settlement, then the base reward is computed with the settled index -/
+theorem claimCore_rv {s s' : St} {caller orig : Nat} {pays : List (Nat × Nat)} {cmp : Bool} {o : Out}
+    (h : claimCore s caller orig pays cmp = some (s', o)) :
+    ∃ n1 a1 att, pays.head? = some (n1, a1) ∧ s.attrs n1 = some att ∧
+      o.base = baseReward s.dsc (s.rps + rpsIncr s) a1 att.rps ∧ o.rew = o.base + o.boosted ∧
+      rv s' = { settledRV s with supply := if cmp then s.supply + o.rew else s.supply } := by
+  simp only [claimCore, Option.bind_eq_bind, Option.bind_eq_some_iff, req_eq_some, Option.pure_def,
+    Option.some.injEq, Prod.mk.injEq, sub?_eq_some] at h
+  obtain ⟨⟨n1, a1⟩, hhead, s0, h0, _, hact, _, hsame, at1, hat, ⟨s1, c1⟩, h1, part, hpart, ⟨s2, boosted⟩, h2,
+    res, ⟨hle, rfl⟩, s3, h3, merged, hm, ⟨s5, n⟩, h5, s6, h6, s8, h8, rfl, rfl⟩ := h
+  have e0 := takePayments_rv h0
+  obtain ⟨e1, hr, hs⟩ := generate_rv h1
+  have e2 := claimBoostedYields_rv h2
+  have e3 := checkAndUpdate_rv h3
+  have e5 := createToken_rv h5
+  have e6 := setFarmSupplyWeek_rv h6
+  have e8 := claimTail_rv h8
+  have hattr : s0.attrs = s.attrs := by obtain ⟨_, rfl⟩ := takePayments_spec _ h0; rfl
+  obtain ⟨hprps, _⟩ := intoPart_rps hpart
+  have hb : baseShare s0 = baseShare s := by unfold baseShare; rw [minted_congr e0, cutOf_congr e0]
+  have e4 : rv (if cmp = true then increaseUser s3 orig
+      (baseReward s1.dsc c1.rps a1 part.rps + boosted) else s3) = rv s3 := by cases cmp <;> rfl
+  have q : rv s6 = rv s1 := e6.trans (e5.trans (e4.trans (e3.trans e2)))
+  clear h0 h1 h2 h3 h5 h6 h8 hm hpart e2 e3 e5 e6 e4
+  rw [hb] at hr
+  dsimp only at e8 ⊢
+  refine ⟨n1, a1, at1, hhead, hattr ▸ hat, ?_, rfl, ?_⟩
+  · simp only [rv, RV.mk.injEq, Cache.read, rpsIncr] at e0 e1 hr hs
+    obtain ⟨a1', a2, a3, a4, a5, a6, a7, a8⟩ := e0
+    obtain ⟨b1, b2, b3, b4, b5, b6, b7, b8⟩ := e1
+    simp only [hr, hprps, b8, a1', a2, a8, rpsIncr]
+  · rw [e8]
+    simp only [rv, RV.mk.injEq, Cache.drop, Cache.read, settledRV, rpsIncr] at e0 e1 hr hs q ⊢
+    obtain ⟨a1', a2, a3, a4, a5, a6, a7, a8⟩ := e0
+    obtain ⟨b1, b2, b3, b4, b5, b6, b7, b8⟩ := e1
+    obtain ⟨c1', c2, c3, c4, c5, c6, c7, c8⟩ := q
+    refine ⟨?_, ?_, ?_, ?_, ?_, ?_, ?_, ?_⟩
+    · simp only [hr, a1', a2, a8]
+    · cases cmp <;> simp only [hs, a2, hr, hprps, b8, a1', a8, if_true, if_false, Bool.false_eq_true]
+    · simp only [c3, b3, a3, a4]
+    · simp only [c4, b4, a4]
+    · simp only [c5, b5, a5]
+    · simp only [c6, b6, a6]
+    · simp only [c7, b7, a7]
+    · simp only [c8, b8, a8]
+
+set_option maxHeartbeats 1000000 in
+theorem exitFarm_rv {s s' : St} {caller : Nat} {opt : Option Nat} {n a : Nat} {o : Out}
+    (h : exitFarm s caller opt n a = some (s', o)) :
+    ∃ att, s.attrs n = some att ∧ a ≤ s.supply ∧
+      o.base = baseReward s.dsc (s.rps + rpsIncr s) a att.rps ∧ o.rew = o.base + o.boosted ∧
+      rv s' = { settledRV s with supply := s.supply - a } := by
+  simp (config := { maxSteps := 1000000 }) only [exitFarm, Option.bind_eq_bind,
+    Option.bind_eq_some_iff, req_eq_some, Option.pure_def,
+    Option.some.injEq, Prod.mk.injEq, sub?_eq_some] at h
+  obtain ⟨orig, _, s0, h0, _, hact, att, hat, ⟨s1, c1⟩, h1, part, hpart, ⟨s2, boosted⟩, h2,
+    res, ⟨hle, rfl⟩, sup, ⟨hsup, rfl⟩, s4, h4, pen, hpen, out, _, s6, h6, s7, h7, s8, h8, rfl, rfl⟩ := h
+  have e0 := takePayments_rv h0
+  obtain ⟨e1, hr, hs⟩ := generate_rv h1
+  have e2 := claimBoostedYields_rv h2
+  have e4 := setFarmSupplyWeek_rv h4
+  have e6 := removeFarming_rv h6
+  have e7 := payReward_rv h7
+  have e8 := clearUserEnergyIfNeeded_rv h8
+  have hattr : s0.attrs = s.attrs := by obtain ⟨_, rfl⟩ := takePayments_spec _ h0; rfl
+  obtain ⟨hprps, hpamt⟩ := intoPart_rps hpart
+  have hb : baseShare s0 = baseShare s := by unfold baseShare; rw [minted_congr e0, cutOf_congr e0]
+  have q : rv s4 = rv s1 := e4.trans e2
+  have q8 : rv s8 = rv (Cache.drop s4 ⟨c1.reserve - (baseReward s1.dsc c1.rps a part.rps + boosted), c1.rps,
+      c1.supply - part.amt⟩) := e8.trans (e7.trans e6)
+  clear h0 h1 h2 h4 h6 h7 h8 hpart hpen e2 e4 e6 e7 e8
+  rw [hb] at hr
+  dsimp only at hsup ⊢
+  simp only [rv, RV.mk.injEq, Cache.read, rpsIncr] at e0 e1 hr hs
+  obtain ⟨a1', a2, a3, a4, a5, a6, a7, a8⟩ := e0
+  obtain ⟨b1, b2, b3, b4, b5, b6, b7, b8⟩ := e1
+  refine ⟨att, hattr ▸ hat, by omega, ?_, rfl, ?_⟩
+  · simp only [hr, hprps, b8, a1', a2, a8, rpsIncr]
+  · rw [q8]
+    simp only [rv, RV.mk.injEq, Cache.drop, settledRV, rpsIncr] at q ⊢
+    obtain ⟨c1', c2, c3, c4, c5, c6, c7, c8⟩ := q
+    refine ⟨?_, ?_, ?_, ?_, ?_, ?_, ?_, ?_⟩
+    · simp only [hr, a1', a2, a8]
+    · simp only [hs, a2, hpamt]
+    · simp only [c3, b3, a3, a4]
+    · simp only [c4, b4, a4]
+    · simp only [c5, b5, a5]
+    · simp only [c6, b6, a6]
+    · simp only [c7, b7, a7]
+    · simp only [c8, b8, a8]
+
+theorem mergeFarmTokens_rv {s s' : St} {caller : Nat} {opt : Option Nat} {pays : List (Nat × Nat)} {o : Out}
+    (h : mergeFarmTokens s caller opt pays = some (s', o)) : rv s' = rv s := by
+  simp only [mergeFarmTokens, Option.bind_eq_bind, Option.bind_eq_some_iff, req_eq_some, Option.pure_def,
+    Option.some.injEq, Prod.mk.injEq] at h
+  obtain ⟨_, hact, orig, _, _, _, s0, h0, ⟨s1, boosted⟩, h1, s2, h2, merged, hm, ⟨s3, n⟩, h3, s4, h4, rfl, rfl⟩ := h
+  exact (payReward_rv h4).trans ((createToken_rv h3).trans ((checkAndUpdate_rv h2).trans
+    ((claimOnlyBoostedPayment_rv h1).trans (takePayments_rv h0))))
+
+theorem claimBoostedRewards_rv {s s' : St} {caller : Nat} {optUser : Option Nat} {o : Out}
+    (h : claimBoostedRewards s caller optUser = some (s', o)) : rv s' = settledRV s := by
+  simp only [claimBoostedRewards, Option.bind_eq_bind, Option.bind_eq_some_iff, req_eq_some, Option.pure_def,
+    Option.some.injEq, Prod.mk.injEq, sub?_eq_some] at h
+  obtain ⟨_, _, _, _, _, hact, ⟨s1, c1⟩, h1, ⟨s2, boosted⟩, h2, res, ⟨hle, rfl⟩, s3, h3, s4, h4, rfl, rfl⟩ := h
+  obtain ⟨e1, hr, hs⟩ := generate_rv h1
+  have q : rv s4 = rv s1 := (payReward_rv h4).trans ((setFarmSupplyWeek_rv h3).trans (claimBoostedYields_rv h2))
+  clear h1 h2 h3 h4
+  simp only [rv, RV.mk.injEq, Cache.drop, Cache.read, settledRV, rpsIncr] at e1 hr hs q ⊢
+  obtain ⟨b1, b2, b3, b4, b5, b6, b7, b8⟩ := e1
+  obtain ⟨c1', c2, c3, c4, c5, c6, c7, c8⟩ := q
+  exact ⟨hr, hs, by simp only [c3, b3], by simp only [c4, b4], by simp only [c5, b5],
+    by simp only [c6, b6], by simp only [c7, b7], by simp only [c8, b8]⟩
+
+/-! ### admin endpoints settle under the OLD configuration first (C06 `admin_settles_first`) -/
+
+theorem setPerBlock_rv {s s' : St} {c x : Nat} (h : setPerBlock s c x = some s') :
+    x ≠ 0 ∧ rv s' = { settledRV s with perBlock := x } := by
+  simp only [setPerBlock, Option.bind_eq_bind, Option.bind_eq_some_iff, req_eq_some, Option.pure_def,
+    Option.some.injEq] at h
+  obtain ⟨_, _, _, hx, s1, h1, rfl⟩ := h
+  have e := settle_rv h1
+  refine ⟨hx, ?_⟩
+  simp only [rv, settledRV, RV.mk.injEq] at e ⊢
+  obtain ⟨a1, a2, a3, a4, a5, a6, a7, a8⟩ := e
+  exact ⟨a1, a2, a3, a4, a5, trivial, a7, a8⟩
+
+theorem endProduce_rv {s s' : St} {c : Nat} (h : endProduce s c = some s') :
+    rv s' = { settledRV s with produce := false } := by
+  simp only [endProduce, Option.bind_eq_bind, Option.bind_eq_some_iff, req_eq_some, Option.pure_def,
+    Option.some.injEq] at h
+  obtain ⟨_, _, s1, h1, rfl⟩ := h
+  have e := settle_rv h1
+  simp only [rv, settledRV, RV.mk.injEq] at e ⊢
+  obtain ⟨a1, a2, a3, a4, a5, a6, a7, a8⟩ := e
+  exact ⟨a1, a2, a3, a4, trivial, a6, a7, a8⟩
+
+theorem setPct_rv {s s' : St} {c p : Nat} (h : setPct s c p = some s') :
+    p ≤ MAXPCT ∧ rv s' = { settledRV s with pct := p } := by
+  simp only [setPct, Option.bind_eq_bind, Option.bind_eq_some_iff, req_eq_some, Option.pure_def,
+    Option.some.injEq] at h
+  obtain ⟨_, _, _, hp, s1, h1, rfl⟩ := h
+  have e := settle_rv h1
+  refine ⟨hp, ?_⟩
+  simp only [rv, settledRV, RV.mk.injEq] at e ⊢
+  obtain ⟨a1, a2, a3, a4, a5, a6, a7, a8⟩ := e
+  exact ⟨a1, a2, a3, a4, a5, a6, trivial, a8⟩
+
+theorem startProduce_rv {s s' : St} {c : Nat} (h : startProduce s c = some s') :
+    s.perBlock ≠ 0 ∧ s.produce = false ∧
+    rv s' = { rv s with produce := true, lastBlock := s.block } := by
+  simp only [startProduce, Option.bind_eq_bind, Option.bind_eq_some_iff, req_eq_some, Option.pure_def,
+    Option.some.injEq] at h
+  obtain ⟨_, _, _, hp, _, hn, rfl⟩ := h
+  refine ⟨hp, by simpa using hn, rfl⟩
 
 end Mx.Farm
